@@ -29,7 +29,24 @@ fn configs() -> Vec<MachineConfig> {
 fn ref_run(src: &str, cfg: &MachineConfig, n: usize, ints: &[usize], resets: &[usize]) -> (Machine, usize) {
     let asm = AsmParser::parse(src).expect("program parses");
     let bc = Translator::compile(&asm);
-    let mut m = Machine::new_with_program(cfg.clone(), bc);
+    // "creating a machine with that program and configuration": built step by step from the public
+    // setters (not through Machine::new_with_program, which is part of what is being checked):
+    // load first (it master-resets the inputs), then the configuration.
+    let mut m = Machine::new(MachineConfig::default());
+    m.load(bc);
+    m.set_input_fc(cfg.input_fc);
+    m.set_input_fd(cfg.input_fd);
+    m.set_input_fe(cfg.input_fe);
+    m.set_input_ff(cfg.input_ff);
+    m.set_digital_input1(cfg.digital_input1);
+    m.set_temp(cfg.temp);
+    m.set_jumper1(cfg.jumper1);
+    m.set_jumper2(cfg.jumper2);
+    m.set_analog_input1(cfg.analog_input1);
+    m.set_analog_input2(cfg.analog_input2);
+    m.set_universal_input_output1(cfg.universal_input_output1);
+    m.set_universal_input_output2(cfg.universal_input_output2);
+    m.set_universal_input_output3(cfg.universal_input_output3);
     let mut i = 0;
     while i < n {
         if ints.iter().any(|c| *c == i) {
